@@ -13,10 +13,13 @@ vars == <<mode, m, hist, vals, last>>
 T0 == [k |-> "Inheritance", a |-> SE1(W("a")), b |-> IV("x")]
 S0 == Sentence(T0, "Judgement", [k |-> "Present"], <<"1", "0.9">>)
 S1 == Sentence(QV("z"), "Question", [k |-> "Eternal"], <<>>)
-EnumStarts == {AsTerm(T0), AsTerm(W("a")), AsSentence(S0), AsSentence(S1), AsTask(<<>>, S0), AsTask(<<"0.5">>, S0), AsTask(<<"0.5", "0.75", "0.4">>, S1)}
+S2 == Sentence(W("a"), "Goal", [k |-> "Future"], <<"0.5", "1">>)                     \* confidence exactly 1, a future stamp
+S3 == Sentence(OP("op"), "Quest", [k |-> "Fixed", n |-> "-1"], <<>>)
+EnumStarts == {AsTerm(T0), AsTerm(W("a")), AsSentence(S0), AsSentence(S1), AsSentence(S2), AsSentence(S3), AsTask(<<>>, S0), AsTask(<<"0.5">>, S0),
+               AsTask(<<"0.5", "0.75", "0.4">>, S1), AsTask(<<"1", "1">>, S2)}
 LS(s) == [term |-> LexTree(s.t), punctuation |-> RE.punct[s.p],
           stamp |-> IF s.st.k = "Eternal" THEN "" ELSE RE.stamp_l \o RE.stamp[s.st.k] \o RE.stamp_r, truth |-> s.tr]
-LexStarts == {[kind |-> "term", v |-> LexTree(T0)], [kind |-> "sentence", v |-> LS(S0)], [kind |-> "sentence", v |-> LS(S1)],
+LexStarts == {[kind |-> "term", v |-> LexTree(T0)], [kind |-> "sentence", v |-> LS(S0)], [kind |-> "sentence", v |-> LS(S1)], [kind |-> "sentence", v |-> LS(S2)],
               [kind |-> "task", v |-> [budget |-> <<>>, sentence |-> LS(S0)]], [kind |-> "task", v |-> [budget |-> <<"0.5">>, sentence |-> LS(S0)]]}
 AllOps(mm) == Ops \cup {"reparse_" \o FmtName} \cup (IF mm = "enum" THEN {"std_try_term", "std_try_sentence", "std_try_task"} ELSE {})
 
